@@ -36,6 +36,9 @@ class Layout:
             self.dirs.append(rng.choice(["m%d" % i, "lib/m%d" % i, "m0/n%d" % i if i else "m0"]))
         self.dirs = list(dict.fromkeys(self.dirs))
         pimp = 0.35
+        # Qt5-style imports with a version number (`import qmluic.QtWidgets 6.2`, `import "w" 1.0`) in COMPONENT files: the version is
+        # ignored with a warning, the import itself counts exactly like an unversioned one
+        self.versioned = rng.random() < 0.3
         if rng.random() < 0.35:
             # twin trees: the SAME relative import string ("w", "../w", ...) written in different directories names different directories
             self.dirs = rng.sample(["p", "q", "p/w", "q/w", "p/w/w", "q/w/w"], rng.choice([3, 4, 5, 6]))
@@ -92,7 +95,8 @@ class Layout:
 
     def write(self, root):
         for name, c in self.comps.items():
-            lines = ["import qmluic.QtWidgets"] + ['import "%s"' % self.rel(c["dir"], x) for x in c["imports"]] + ["%s {" % c["root"], "}"]
+            ver = lambda: (self.rng.choice([" 1.0", " 6.2", " 2.15"]) if self.versioned and self.rng.random() < 0.6 else "")
+            lines = ["import qmluic.QtWidgets" + ver()] + ['import "%s"%s' % (self.rel(c["dir"], x), ver()) for x in c["imports"]] + ["%s {" % c["root"], "}"]
             self.files[os.path.join(self.dirs[c["dir"]], name + ".qml")] = "\n".join(lines) + "\n"
         for m in self.mains:
             lines = ["import qmluic.QtWidgets"] + ['import "%s"' % self.rel(m["dir"], x) for x in m["imports"]] + ["QWidget {", "    QVBoxLayout {"]
@@ -186,7 +190,7 @@ def run(ctx):
                           dict(rep, impl_output=stray, theorem_or_correspondence="S: components of a directory = its *.qml files"))
             continue
         # no import of these layouts carries a version or an alias: a diagnostic about either is spurious
-        spurious = sorted({m for _, r in runs for pd in r.get("project_diags", []) for m in pd["diags"] if "import version" in m or "aliased import" in m})
+        spurious = sorted({m for _, r in runs for pd in r.get("project_diags", []) for m in pd["diags"] if ("import version" in m and not lay.versioned) or "aliased import" in m})
         if spurious:
             ctx.violation("a diagnostic about import versions / aliases on a layout that has none: %s" % spurious[:2], dict(rep, impl_output=spurious))
             continue
